@@ -6,11 +6,12 @@ import GeoModel.OpsAll
 open Geo
 
 /-- Case prefixes, in any order: `NZ <k>` (negative-zero spelling for the implementation; −0.0 and +0.0 both decode to 0),
-`DUP` (marks a case in which the generator repeated a vertex — the repeated vertex is in the line itself), `SC <k>` (every input
+`DUP` / `LONG` (mark a case in which the generator repeated a vertex / subdivided a line string — the change is in the line itself), `SC <k>` (every input
 coordinate of the case is multiplied by 2^k on both sides; handed to the parsers as the marker token `@S<k>`). -/
 def stripPrefixes : Option String → List String → Option String × List String
   | m, "NZ" :: _ :: rest => stripPrefixes m rest
   | m, "DUP" :: rest => stripPrefixes m rest
+  | m, "LONG" :: rest => stripPrefixes m rest
   | _, "SC" :: k :: rest => stripPrefixes (some ("@S" ++ k)) rest
   | m, ts => (m, ts)
 
